@@ -149,6 +149,8 @@ pub struct ArgSpec {
     pub hide_env: bool,
     pub help_heading: Option<String>,
     pub ignore_case: bool,
+    /// possible values: wrap the list parser in `try_map` (1) or `map` (2) with the identity
+    pub pv_adaptor: u8,
     pub parser: Vp,
     pub default: Vec<String>,
     pub default_ifs: Vec<DefaultIf>,
@@ -205,6 +207,9 @@ pub struct CmdSpec {
     /// one setting switched on inside `Command::defer` (the closure runs at the first build;
     /// `defer` takes a plain fn pointer, so the menu is one static function per setting)
     pub deferred_setting: Option<Setting>,
+    /// the subcommands are added inside a `Command::defer` closure; they must then be exactly the
+    /// fixed `leaf` (flag `z`: `-z`, `--zulu`), because a deferred closure cannot capture anything
+    pub subs_deferred: bool,
     /// argument ids passed through `Command::mut_arg(id, |a| a)` after the definition is complete
     /// (an identity edit: re-inserts the argument at the end of the argument list)
     pub touch: Vec<String>,
@@ -453,7 +458,12 @@ pub fn build_arg(s: &ArgSpec) -> Arg {
                     v
                 })
                 .collect();
-            a = a.value_parser(ValueParser::from(vals));
+            use clap::builder::TypedValueParser;
+            a = match s.pv_adaptor {
+                1 => a.value_parser(clap::builder::PossibleValuesParser::new(vals).try_map(|v: String| Ok::<String, std::convert::Infallible>(v))),
+                2 => a.value_parser(clap::builder::PossibleValuesParser::new(vals).map(|v: String| v)),
+                _ => a.value_parser(ValueParser::from(vals)),
+            };
         }
     }
     if !s.default.is_empty() {
@@ -604,6 +614,13 @@ pub fn build(s: &CmdSpec) -> Command {
     c
 }
 
+/// The subcommand a `subs_deferred` command gets from its deferred closure
+pub fn deferred_leaf_spec() -> CmdSpec {
+    let mut l = CmdSpec::new("leaf");
+    l.args.push(ArgSpec::flag("z", Some('z'), Some("zulu")));
+    l
+}
+
 fn deferred_fn(st: Setting) -> fn(Command) -> Command {
     macro_rules! f {
         ($($v:ident),*) => {
@@ -698,8 +715,16 @@ fn build_rest(mut c: Command, s: &CmdSpec) -> Command {
     for g in &s.groups {
         c = c.group(build_group(g));
     }
-    for sub in &s.subs {
-        c = c.subcommand(build(sub));
+    if s.subs_deferred {
+        assert!(s.subs.len() == 1 && s.subs[0] == deferred_leaf_spec(), "subs_deferred: the subcommands must be the fixed leaf");
+        fn add_leaf(c: Command) -> Command {
+            c.subcommand(build(&deferred_leaf_spec()))
+        }
+        c = c.defer(add_leaf);
+    } else {
+        for sub in &s.subs {
+            c = c.subcommand(build(sub));
+        }
     }
     for id in &s.touch {
         c = c.mut_arg(id.clone(), |a| a);
